@@ -39,6 +39,9 @@ class Gen:
         return self.r.choice(ATTR_PAYLOADS) if self.adv else self.r.choice(['plain', 'x y', 'z'])
 
     def text(self):
+        if self.chance(0.004):
+            # longer than any buffer a parser is likely to use (expat's default is 8192)
+            return ' '.join(f'w{k}' for k in range(2400))
         return self.r.choice(TEXT_PAYLOADS) if self.adv else self.r.choice(['plain text', 'x'])
 
     def meta(self, p=0.4):
